@@ -216,16 +216,19 @@ CHECKS = {
         design="6/C13",
     ),
     "C10": dict(
-        text=("48 theorems: for all families (ties included) the step-up loop equals the textbook step-up rule "
+        text=("89 theorems: for all families (ties included) the step-up loop equals the textbook step-up rule "
               "(rejection flags, running-min adjusted p-values, adjusted alphas), the step-down loop equals Holm's rule; "
               "flagged rejected iff pvalue <= alpha_adj, and iff pvalue_adj <= alpha (exact arithmetic); adjusted "
               "p-values in [pvalue,1] and order-preserving; the GENERATED Benjamini/Bonferroni adjust functions give "
               "well-formed families so adjust_fdr (BH, BY) and all four adjust_fwer procedures (Holm / Hochberg x "
               "Bonferroni / Sidak; Props/C10Fwer.lean) ARE the named procedures — the Sidak ones under seven laws of the "
-              "real power x**y, proved for Real.rpow in Props/C10Real.lean; neighbouring ties get equal pvalue_adj/flags; alpha_adj order-dependent at ties (K2 witness). Tie: translator for "
+              "real power x**y, proved for Real.rpow in Props/C10Real.lean; ORDER INDEPENDENCE (Props/C10Order.lean): in both loops any "
+              "two hypotheses with equal p-values get the same pvalue_adj and flag, and for the whole procedure incl. the "
+              "stable sort and the write-back by input position, permuting the input p-values permutes pvalue_adj and "
+              "null_rejected with them, instantiated for all six generated procedures; alpha_adj order-dependent at ties (K2 witness). Tie: translator for "
               "adjust + exact correspondence of the hand-modelled loops on Fraction p-values; search vs textbook spec."),
         note=NOTE_COMMON + "Loops, stable sort and result copying are hand-modelled; Sidak theorems take the power "
-             "function as a parameter with the laws C10.RpowLaws (float ** is its rounding); arbitrary-permutation invariance and purity are checked on every case, not proved.",
+             "function as a parameter with the laws C10.RpowLaws (float ** is its rounding); purity (inputs left unmodified) is checked on every case, not proved.",
         technique="Lean 4 proof (generated adjust + hand-modelled loops) + exact correspondence",
         design="6/C10",
     ),
@@ -242,13 +245,17 @@ CHECKS = {
         design="6/C11",
     ),
     "C12": dict(
-        text=("25 theorems: the pair construction is exactly the documented one (control vs every other variant in "
+        text=("38 theorems: the pair construction is exactly the documented one (control vs every other variant in "
               "sorted order; all pairs with the smaller id as control; no duplicates; a single result iff exactly one "
               "pair, raise otherwise); the OR-merged request covers every statistic every metric declares (covariance "
               "pairs up to order) for any list of metrics; analysis_frame: the GENERATED Mean/RatioOfMeans analysis is a "
               "function of the declared statistics only (incl. the pooled a+b), so an entry cannot depend on other "
               "metrics; the same for power analysis (power_inputs_frame: metric mean, variance and count; "
-              "merge_power_superset: the request of Experiment.solve_power covers every aggregated power metric). Tie: correspondence of Model/Experiment.lean with the real Experiment (pairs/raise, declared "
+              "merge_power_superset: the request of Experiment.solve_power covers every aggregated power metric); composed in "
+              "Props/C12Compose.lean over a model of Experiment.analyze (one read of the merged request, every metric on "
+              "the shared aggregates, every pair): entry_eq_standalone / ratio_entries_eq_standalone (each entry equals the "
+              "metric analysed alone on its own read, for any backend whose answer to a request does not depend on what "
+              "else was requested - C01), entry_indep_of_others, order_preserved. Tie: correspondence of Model/Experiment.lean with the real Experiment (pairs/raise, declared "
               "columns); search: entry vs metric analysed alone, custom metrics receive what they declared, order, "
               "solve_power."),
         note=NOTE_COMMON + "Model/Experiment.lean is hand-written. The stand-alone clause for SampleRatio / resampling / "
@@ -275,9 +282,14 @@ CHECKS = {
               "the sign; every point of the n_obs bracket leaves both groups more than one observation for every "
               "ratio > 0 (false before the fix); under the brentq contract the solved effect reproduces the target "
               "power and its sign follows the alternative, the solved n reproduces it inside the admissible bracket; "
-              "ceil of the root is the least integer reaching the target for an increasing power curve. Tie: "
-              "translator + exact correspondence of the brackets handed to brentq; float search on the real solver."),
-        note=NOTE_COMMON + "brentq contract is a hypothesis; the solver's control flow (Model/Solve.lean) is hand-written.",
+              "ceil of the root is the least integer reaching the target for an increasing power curve; the ROW ASSEMBLY "
+              "(Model/PowerGrid.lean, Props/C09Grid.lean): one row per effect size x n_obs in input order (rows_eq_grid), "
+              "effect_size = rel_effect_size x adjusted mean in every row for given absolute, given relative and solved "
+              "effects (abs_rel_related), only the solved quantity is replaced, n_obs rounded up, raises iff an effect is "
+              "needed and none configured. Tie: translator + exact correspondence of the brackets handed to brentq; the "
+              "model's rows built from the recorded return values of _solve_power_from_stats must equal the real rows; "
+              "float search on the real solver."),
+        note=NOTE_COMMON + "brentq contract is a hypothesis; the solver's control flow (Model/Solve.lean) and the row assembly (Model/PowerGrid.lean) are hand-written.",
         technique="Lean 4 proof over generated brackets + hand-modelled solver + bracket correspondence",
         design="6/C09",
     ),
